@@ -12,7 +12,7 @@ import (
 func init() {
 	Register(&PropDef{
 		ID: "C13", QuickRuns: 4800, Level: "exploration",
-		Rule: "one run = one association with 1-4 sessions (downlink FAR with or without the notify flag) on the BESS datapath and 5-40 datapath reports (8-byte records on the notify socket) for known, unknown and deleted sessions at times drawn around multiples of the 20 s interval (bursts, exactly one interval apart +/- a few ms, long gaps); optionally a repeating PRNG forces F-SEID reuse by a later session. Oracle at the peer socket: the set of Session Report Requests equals the reference notifier (first report of a session forwarded, then at most one per interval), each addressed with the CP SEID, with a sequence number not used before by the agent and a Downlink Data Report naming the session's downlink PDR; none for unknown / non-notifying sessions. Non-trivial = at least one forwarded and one suppressed report; distinct = different sequence of (session kind, interval class, forwarded?).",
+		Rule: "one run = one association with 1-4 sessions (downlink FAR with or without the notify flag) on the BESS datapath and 5-40 datapath reports (8-byte records on the notify socket) for known, unknown and deleted sessions at times drawn around multiples of the 20 s interval (bursts, exactly one interval apart +/- a few ms, long gaps); optionally a repeating PRNG forces F-SEID reuse by a later session; the control plane moves sessions to new CP F-SEIDs (with and without a rule change); one run in four uses the P4Runtime datapath, where reports are digests carrying the UE address on the stream channel. Oracle at the peer socket: the set of Session Report Requests equals the reference notifier (first report of a session forwarded, then at most one per interval), each addressed with the CP SEID, with a sequence number not used before by the agent and a Downlink Data Report naming the session's downlink PDR; none for unknown / non-notifying sessions. Non-trivial = at least one forwarded and one suppressed report; distinct = different sequence of (session kind, interval class, forwarded?).",
 		Assume: []string{"reports closer than 3 ms to an exact multiple of the interval after the previous forwarded one are not generated (the agent's clock reads are a few ns later than the injection instant)", "one association (the code documents multi-association routing as not implemented)"},
 		Real: CommonReal, Simulated: CommonSim,
 		Scenario: scenarioC13,
@@ -23,22 +23,35 @@ const ddnInterval = 20 * time.Second // from the property statement
 
 func scenarioC13(r *Run) {
 	r.Conf = DefaultBESSConf()
+	reuse := r.Ch.Choose(6, "seid-reuse") == 1
+	// one run in four: the P4Runtime datapath, where reports arrive as digests
+	// carrying the UE address on the stream channel
+	up4 := !reuse && r.Ch.Choose(4, "datapath") == 1
+	if up4 {
+		r.DrawUP4Conf()
+	}
 	r.Conf.EnableHBTimer = false
 	r.Conf.ReadTimeout = 100000
 	r.DrawStrategy()
-	reuse := r.Ch.Choose(6, "seid-reuse") == 1
 	if reuse {
 		vsim.RandCfg = vsim.RandConfig{Mode: vsim.RandRepeat, Cycle: 1 + r.Ch.Choose(2, "cycle")}
 		r.Fault("adversarial-prng-repeats")
 	}
 	p := r.AddPeer()
 	r.StartAgent()
-	if !r.AgentAlive() || p.Associate() == nil {
+	if up4 {
+		if !r.WaitUP4Ready() || p.AssociateRetry() == nil {
+			r.CheckNoPanics("C13")
+			return
+		}
+		r.Skel("up4")
+	} else if !r.AgentAlive() || p.Associate() == nil {
 		r.CheckNoPanics("C13")
 		return
 	}
 	g := NewGen(r)
 	g.PlainQER = true
+	g.UP4 = up4
 	type sessInfo struct {
 		s       *CPSession
 		notify  bool
@@ -46,6 +59,8 @@ func scenarioC13(r *Run) {
 		live    bool
 		lastFwd int64 // model: last forwarded report (-1 none)
 		gen     int   // generation (for SEID reuse)
+		seidAt  []int64  // history of the control plane's SEID: valid from seidAt[i] ...
+		seids   []uint64 // ... the value
 	}
 	var sessions []*sessInfo
 	mk := func() *sessInfo {
@@ -68,7 +83,7 @@ func scenarioC13(r *Run) {
 			return nil
 		}
 		r.Accepted++
-		si := &sessInfo{s: s, notify: notify, dlPDR: 2, live: true, lastFwd: -1}
+		si := &sessInfo{s: s, notify: notify, dlPDR: 2, live: true, lastFwd: -1, seidAt: []int64{0}, seids: []uint64{s.CPSEID}}
 		sessions = append(sessions, si)
 		return si
 	}
@@ -87,11 +102,27 @@ func scenarioC13(r *Run) {
 		at   int64
 		si   *sessInfo
 		cpseid uint64 // the control plane's SEID of the session when the report was made
+		reusedFirst bool // first report of a session that inherited the F-SEID of a deleted one
 	}
 	var expected []fwd
 	notifierLast := map[uint64]int64{}
 	seenFirst := map[*sessInfo]bool{}
 	inject := func(fseid uint64) {
+		if up4 {
+			// the switch reports the UE address; an address no session owns for unknown F-SEIDs
+			ue := uint32(0x0A630000) + uint32(fseid&0xff)
+			for _, x := range sessions {
+				if x.s.UPSEID == fseid {
+					for _, pd := range x.s.PDRs {
+						if pd.SrcIface == IfCore {
+							ue = pd.EffUEIP()
+						}
+					}
+				}
+			}
+			r.W.P4.InjectDigest(ue)
+			return
+		}
 		b := make([]byte, 8)
 		binary.LittleEndian.PutUint64(b, fseid)
 		r.W.Net.UnixInject("/tmp/notifycp", b)
@@ -149,20 +180,24 @@ func scenarioC13(r *Run) {
 		// reference notifier
 		last, known := notifierLast[fseid]
 		forward := !known || time.Duration(now-last) >= ddnInterval
-		if forward {
+		if up4 && (target == nil || !target.live) {
+			// UP4 resolves the UE address to a session first: nothing is remembered
+			// for an address no live session owns
+			forward = false
+		} else if forward {
 			notifierLast[fseid] = now
 		}
 		class := "unknown"
 		if target != nil {
 			class = fmt.Sprintf("notify=%v live=%v", target.notify, target.live)
 			if forward && target.live && target.notify {
-				expected = append(expected, fwd{now, target, target.s.CPSEID})
+				expected = append(expected, fwd{now, target, target.s.CPSEID, false})
 				seenFirst[target] = true
 			}
 			if !forward && target.live && target.notify && !seenFirst[target] {
 				// the model itself (keyed by F-SEID like the agent) suppresses the first
 				// report of a session that inherited an old F-SEID: the property forbids it
-				expected = append(expected, fwd{now, target, target.s.CPSEID})
+				expected = append(expected, fwd{now, target, target.s.CPSEID, true})
 				seenFirst[target] = true
 				r.Probe("first-report-of-session-with-reused-fseid")
 			}
@@ -182,7 +217,13 @@ func scenarioC13(r *Run) {
 				m.UpdateFAR = append(m.UpdateFAR, &f)
 				m.Tag = "newCPSEID+uF"
 			}
+			sentAt := r.Sim.NowNS()
 			res := p.Modify(target.s, m)
+			if res.Accepted {
+				// the agent switches somewhere between the request and its response
+				target.seidAt = append(target.seidAt, sentAt)
+				target.seids = append(target.seids, m.NewCPSEID)
+			}
 			r.Op("session up=%d moved to CP SEID %d (%s) -> accepted=%v", target.s.UPSEID, m.NewCPSEID, m.Tag, res.Accepted)
 			r.Skel("cpseid:" + m.Tag)
 		}
@@ -257,8 +298,27 @@ func scenarioC13(r *Run) {
 			return
 		}
 		gi++
-		if srr.SEID() != e.cpseid {
-			r.Violate("C13", "wrong-seid", "Session Report Request addressed with SEID %d, the control plane's SEID of the session was %d at that time (UP SEID %d)", srr.SEID(), e.cpseid, e.si.s.UPSEID)
+		// the SEID must be one the control plane used for the session between the
+		// datapath's report and the arrival of the Session Report Request
+		okSEID := false
+		for i, sd := range e.si.seids {
+			from := e.si.seidAt[i]
+			to := int64(1) << 62
+			if i+1 < len(e.si.seids) {
+				to = e.si.seidAt[i+1] + int64(time.Second)
+			}
+			if sd == srr.SEID() && from <= m.At && to >= e.at {
+				okSEID = true
+			}
+		}
+		if !okSEID && e.reusedFirst {
+			// the request that arrived belongs to a later report of another session:
+			// this one (the listed finding) was suppressed
+			r.Violate("C13", "first-report-suppressed:fseid-reuse", "report for session cp=%d up=%d at t=%.3fs should have been forwarded (first report of the session), the next Session Report Request carries SEID %d", e.si.s.CPSEID, e.si.s.UPSEID, float64(e.at)/1e9, srr.SEID())
+			return
+		}
+		if !okSEID {
+			r.Violate("C13", "wrong-seid", "Session Report Request addressed with SEID %d; the control plane's SEID of the session was %d when the datapath reported (UP SEID %d; history of CP SEIDs %v)", srr.SEID(), e.cpseid, e.si.s.UPSEID, e.si.seids)
 			return
 		}
 		if srr.ReportType == nil || !srr.ReportType.HasDLDR() {
